@@ -159,13 +159,28 @@ def check_case(case) -> Outcome:
     return Outcome(nontrivial=nt, labels=tuple(labels), failures=tuple(fails))
 
 
+FOCUS = {
+    # op-family focus shards: short programs whose operations come from one family (dense coverage of its parameter space)
+    "selection": ("selection", "index"),
+    "reduction": ("reduction", "scan"),
+    "manip": ("manip", "multi", "multi-output", "pick"),
+    "linalg-chunk": ("linalg", "contraction", "chunk", "creation", "search", "misc"),
+}
+
+
+def focus_ops(fam):
+    tags = set(FOCUS[fam])
+    return sorted(n for n, o in OPS.items() if tags & set(o.tags)) + ["pick"]
+
+
 def shards(tier):
     if tier == "quick":
-        return [{"kind": "program", "name": f"dag{i}", "n": 110, "profile": "dag", "rotate": i * 23} for i in range(7)] + [
+        return [{"kind": "program", "name": f"dag{i}", "n": 110, "profile": "dag", "rotate": i * 23} for i in range(6)] + [
+            {"kind": "program", "name": f"focus-{fam}", "n": 120, "profile": "dag", "rotate": 3 + j * 17, "focus": fam, "max_ops": 2} for j, fam in enumerate(FOCUS)] + [
             {"kind": "program", "name": "proc", "n": 6, "profile": "dag", "executors": ["processes"], "max_ops": 3, "rotate": 5}
         ]
     out = [{"kind": "program", "name": f"dag{i}", "n": 2600, "profile": "dag", "rotate": i * 11} for i in range(13)]
-    out += [{"kind": "program", "name": f"single{i}", "n": 3000, "profile": "dag", "max_ops": 1, "rotate": i * 37} for i in range(2)]
+    out += [{"kind": "program", "name": f"focus-{fam}-{i}", "n": 2500, "profile": "dag", "rotate": 3 + j * 17 + i * 29, "focus": fam, "max_ops": 2} for j, fam in enumerate(FOCUS) for i in range(2)]
     out += [{"kind": "program", "name": "proc", "n": 150, "profile": "dag", "executors": ["processes"], "max_ops": 3, "rotate": 3}]
     return out
 
@@ -175,7 +190,10 @@ def run_shard(spec, seed, tier) -> Acc:
     if spec["kind"] == "__corpus__":
         return core.corpus_shard(sys.modules[__name__], acc)
     is_known, _ = core.known_matcher(ID)
-    strat = case_strategy(spec.get("profile", "dag"), opts={"rotate": spec.get("rotate", 0)}, max_ops=spec.get("max_ops", 6), executors=spec.get("executors"))
+    opts = {"rotate": spec.get("rotate", 0)}
+    if spec.get("focus"):
+        opts["only_ops"] = focus_ops(spec["focus"])
+    strat = case_strategy(spec.get("profile", "dag"), opts=opts, max_ops=spec.get("max_ops", 6), executors=spec.get("executors"))
     core.hyp_run(strat, check_case, seed=seed, max_examples=spec["n"], acc=acc, budget_s=420 if tier == "quick" else 3000,
                  shrink=(tier == "thorough"), is_known=is_known)
     acc.extra["generation"] = dict(P.GEN_STATS)
